@@ -73,7 +73,30 @@ static uint64_t adopt_new_node() {       // after a successful try_lock_wait: ex
         if (!known.count(node_of(it))) { live[next_id] = node_of(it); return next_id++; }
     fprintf(stderr, "harness: no new node after successful try_lock_wait\n"); abort();
 }
+// Would this call insert a second range whose end() == offset at the same point?  Then two keys of the
+// std::set are each "less than" the other: the Compare requirements are violated and libstdc++ corrupts
+// the tree (observed: L,1,1,0;L,2,1,0;L,3,1,0 loses a node and segfaults).  Undefined behaviour is not
+// executed; the model reports the same situation as ub(t).
+static bool would_ub(uint64_t o, uint64_t l) {
+    RangeLock::range_t r(o, l);
+    if (r.end() != o) return false;
+    auto it = RL->m_index.lower_bound(r);
+    if (it != RL->m_index.end() && it->offset < r.end()) return false;      // the call will park, not insert
+    if (it == RL->m_index.begin()) return false;
+    auto b = std::prev(it);
+    return b->offset == o && b->end() == o;
+}
 static void run_op(int t, const Op& op) {
+    if ((op.k == 'T' || op.k == 'W') && would_ub(op.o, op.l)) { ev("ub(%d)", t); return; }
+    if (op.k == 'L' && photon::sat_add(op.o, op.l) == op.o) {
+        // a range with end() == offset: RangeLock::lock()'s loop (lines 79-83) replicated with the guard
+        // before every attempt, because a retry after a wake-up may be the undefined insertion
+        for (;;) {
+            if (would_ub(op.o, op.l)) { ev("ub(%d)", t); return; }
+            auto h = RL->try_lock_wait2(op.o, op.l);
+            if (h) { live[next_id] = (const void*)h; ev("acq(%d,L,#%" PRIu64 ")", t, next_id++); return; }
+        }
+    }
     switch (op.k) {
     case 'T': { uint64_t o = op.o, l = op.l; int r = RL->try_lock_wait(o, l);
                 if (r == 0) ev("acq(%d,T,#%" PRIu64 ")", t, adopt_new_node());
